@@ -13,7 +13,8 @@ RULE = ("programs consisting only of read operations (item access, get, len, ite
         "ordering comparisons with plain and synced operands, repr/str, (), keys/values/items, reversed, "
         "index, count, navigation to nested children) on roots and retained children, interleaved with "
         "arbitrary well-nested obj.buffered / buffer_backend() entries and exits, on existing and on missing "
-        "resources, for all 18 classes. Oracles: the audit-hook monitor records no write-class event (open for "
+        "resources (also: a file that someone else removes while the program is inside a buffered context that has "
+        "read it), for all 18 classes. Oracles: the audit-hook monitor records no write-class event (open for "
         "writing, rename/replace, remove, truncate, mkdir, utime ...) anywhere in the case's directory; the "
         "file's (inode, size, mtime_ns, sha256) is unchanged; a missing resource is still missing; the fake "
         "stores' write counters did not move. Results are also compared with the model. Part next_to_writer (E4): "
@@ -61,6 +62,7 @@ def make_case(spec, i):
     for h, res in roots:
         ms.add_root(h, res)
     setup = {}
+    vanish = False
     x0 = r.random()
     if spec["stratum"] == "missing" and x0 < 0.3:
         # the object was constructed with data= on a resource that does not exist
@@ -96,12 +98,16 @@ def make_case(spec, i):
         if r.random() < 0.6:
             roots.append([nres, 0])
             ms.add_root(nres, 0)
+    elif spec["stratum"] == "existing" and info.buffered and info.backend == "json" and x0 < 0.72:
+        # someone else removes the file while the program is inside a buffered context that has read it
+        vanish = True
     elif r.random() < 0.4:
         roots.append([nres, 0])  # a second object on the first resource
         ms.add_root(nres, 0)
     next_id = len(roots)
     steps = []
     depth = 0
+    reads_in_ctx = 0
     n = 30 if spec["tier"] == "quick" else 45
     while len(steps) < n:
         x = r.random()
@@ -115,6 +121,8 @@ def make_case(spec, i):
             steps.append({"exit": 1})
             ms.exit()
             depth -= 1
+            if depth == 0:
+                reads_in_ctx = 0
             continue
         if x < 0.36:
             attached = [h for h in ms.handles.values() if h.attached]
@@ -130,7 +138,15 @@ def make_case(spec, i):
                     steps.append({"retain": next_id, "h": H.id, "path": sub})
                     next_id += 1
             continue
-        steps.extend(gen.gen_program(g, ms, 1, p_read=1.0, depth=2))
+        if vanish and depth > 0 and reads_in_ctx >= 1 and r.random() < 0.3:
+            steps.append({"vanish": 0})
+            ms.truth[0] = MISSING
+            vanish = False
+            continue
+        new = gen.gen_program(g, ms, 1, p_read=1.0, depth=2)
+        if depth > 0 and any(ms.handles[s_["h"]].res == 0 for s_ in new if "op" in s_):
+            reads_in_ctx += 1
+        steps.extend(new)
     while depth > 0:
         steps.append({"exit": 1})
         ms.exit()
@@ -227,6 +243,21 @@ class ReadOnlySession(Session):
             try:
                 for i, step in enumerate(self.case["steps"]):
                     self.step_index = i
+                    if "vanish" in step:
+                        # the outside world removes the file (monitor paused: this is not the library's doing);
+                        # from here on nothing may bring it back
+                        k = step["vanish"]
+                        fsmon._state["armed"] = False
+                        try:
+                            self.resources[k].remove()
+                        finally:
+                            fsmon._state["armed"] = True
+                        self.model.truth[k] = catalog.MISSING
+                        before[k] = (self.resources[k].raw(), self.resources[k].write_count())
+                        snaps[k] = fsmon.stat_snapshot(self.resources[k].path)
+                        listing = sorted(os.listdir(self.scratch))
+                        self.counters["vanish_steps"] = self.counters.get("vanish_steps", 0) + 1
+                        continue
                     self.do_step(step)
                 self.step_index = len(self.case["steps"])
                 self.finish()
